@@ -227,4 +227,80 @@ theorem mem_nhs_of_allowed {s s' : St} {f : FaceId} {i : Interest} {nonce tok : 
   rw [hst.fib, hst.regions] at h
   exact (List.mem_filter.mp h).1
 
+/-! ### the entry after the strategy stage (used by the /localhost liveness theorem of C09) -/
+
+theorem outInterest_entry {s : St} {tok : Nat} {e : Entry} (i nonce hop g inFace)
+    (h : getEntry s.pit tok = some e) :
+    ∃ e2, getEntry (outInterest s tok i nonce hop g inFace).1.pit tok = some e2 ∧ e2.inRecs = e.inRecs := by
+  unfold outInterest
+  split
+  · exact ⟨_, getEntry_modifyEntry _ (fun _ => rfl) h, rfl⟩
+  · exact ⟨e, h, rfl⟩
+
+theorem bestRoute_entry {s : St} {tok : Nat} {e : Entry} (i nonce hop inFace) (l : List (FaceId × Nat))
+    (h : getEntry s.pit tok = some e) :
+    ∃ e2, getEntry (bestRoute s tok i nonce hop inFace l).1.pit tok = some e2 ∧ e2.inRecs = e.inRecs := by
+  induction l with
+  | nil => exact ⟨e, h, rfl⟩
+  | cons nh t ih =>
+    unfold bestRoute
+    split
+    · exact outInterest_entry i nonce hop nh.1 inFace h
+    · exact ih
+
+theorem multicast_entry {s : St} {tok : Nat} {e : Entry} (i nonce hop inFace) (l : List (FaceId × Nat))
+    (h : getEntry s.pit tok = some e) :
+    ∃ e2, getEntry (multicast s tok i nonce hop inFace l).1.pit tok = some e2 ∧ e2.inRecs = e.inRecs := by
+  induction l generalizing s e with
+  | nil => exact ⟨e, h, rfl⟩
+  | cons nh t ih =>
+    simp only [multicast]
+    obtain ⟨e1, h1, hi1⟩ := outInterest_entry i nonce hop nh.1 inFace h
+    obtain ⟨e2, h2, hi2⟩ := ih h1
+    exact ⟨e2, h2, by rw [hi2, hi1]⟩
+
+theorem bestRoute_faces (s : St) (tok i nonce hop inFace) (l : List (FaceId × Nat)) :
+    (bestRoute s tok i nonce hop inFace l).1.faces = s.faces := by
+  induction l with
+  | nil => rfl
+  | cons nh t ih => unfold bestRoute; split <;> simp [ih]
+
+theorem forwardInterest_entry {s : St} {tok : Nat} {e : Entry} (i nonce hop inFace tie)
+    (h : getEntry s.pit tok = some e) :
+    (∃ e2, getEntry (forwardInterest s tok i nonce hop inFace tie).1.pit tok = some e2 ∧ e2.inRecs = e.inRecs) ∧
+    (forwardInterest s tok i nonce hop inFace tie).1.faces = s.faces := by
+  unfold forwardInterest
+  have h1 := getEntry_modifyEntry (Entry.updateExp s.now) (fun _ => rfl) h
+  dsimp only
+  split
+  · obtain ⟨e2, h2, hi⟩ := outInterest_entry (s := { s with pit := modifyEntry s.pit tok (Entry.updateExp s.now) }) (e := Entry.updateExp s.now e) i nonce hop _ inFace h1
+    exact ⟨⟨e2, h2, hi⟩, by simp⟩
+  · split
+    · exact ⟨⟨_, h1, rfl⟩, rfl⟩
+    · split
+      · exact ⟨⟨_, h1, rfl⟩, rfl⟩
+      · split
+        · exact ⟨⟨_, h1, rfl⟩, rfl⟩
+        · split
+          · obtain ⟨e2, h2, hi⟩ := bestRoute_entry (s := { s with pit := modifyEntry s.pit tok (Entry.updateExp s.now) }) (e := Entry.updateExp s.now e) i nonce hop inFace _ h1
+            exact ⟨⟨e2, h2, hi⟩, by rw [bestRoute_faces]⟩
+          · obtain ⟨e2, h2, hi⟩ := multicast_entry (s := { s with pit := modifyEntry s.pit tok (Entry.updateExp s.now) }) (e := Entry.updateExp s.now e) i nonce hop inFace _ h1
+            exact ⟨⟨e2, h2, hi⟩, by simp⟩
+
+/-- a Data echoing token `tok` reaches the faces of the in-records of the entry with that token -/
+theorem onData_token_delivers (s : St) (from_ : FaceId) (fc : Face) (name : Name) (c : Nat) (tok : Nat) (e : Entry)
+    (hf : faceOf s.faces from_ = some fc) (hl : fc.isLocal = true) (he : getEntry s.pit tok = some e) :
+    (onData s from_ { name := name, content := c, tok := .six tok }).2 =
+      dataSends s.faces name c (e.inRecs.map fun r => (r.face, r.tok)) := by
+  unfold onData
+  simp only [hf, hl, Bool.not_true, Bool.false_and, Bool.false_eq_true, if_false]
+  have hpit : (if s.csAdmit = true then csInsert s { name := name, content := c, tok := .six tok } else s).pit = s.pit := by
+    split <;> simp
+  have hfaces : (if s.csAdmit = true then csInsert s { name := name, content := c, tok := .six tok } else s).faces = s.faces := by
+    split <;> simp
+  have hm : matchData s.pit { name := name, content := c, tok := .six tok } = [e] := by
+    unfold matchData; unfold getEntry at he; simp [he]
+  rw [hpit, hm]
+  simp only [hfaces]
+
 end Ndn.Fw
